@@ -70,6 +70,40 @@ fn bare_factor(f: &Factor) -> Option<String> {
   }
 }
 
+
+/// The variables whose storage the value of the expression may SHARE on the pinned tree (values flow by reference unless an
+/// operator computes a fresh one): subscripted reads (x.a, x.1, x[i], x{k}), a variable wrapped in a one-element matrix
+/// literal, the elements of tuple / record / set / tuple-struct literals, the scrutinee and arm bodies of a match expression,
+/// the arguments of a call.  A top-level bare variable is reported separately ("from").
+fn passthrough(e: &Expression, wrapped: bool, out: &mut Vec<String>) {
+  match e {
+    Expression::Var(v) => if wrapped && v.kind.is_none() { out.push(ascii_name(&v.name.to_string())); },
+    Expression::Slice(s) => out.push(ascii_name(&s.name.to_string())),
+    Expression::Structure(Structure::Matrix(m)) => {
+      if m.rows.len() == 1 && m.rows[0].columns.len() == 1 { passthrough(&m.rows[0].columns[0].element, true, out); }
+    }
+    Expression::Structure(Structure::Tuple(t)) => for x in t.elements.iter() { passthrough(x, true, out); },
+    Expression::Structure(Structure::Record(r)) => for b in r.bindings.iter() { passthrough(&b.value, true, out); },
+    Expression::Structure(Structure::Set(st)) => for x in st.elements.iter() { passthrough(x, true, out); },
+    Expression::Structure(Structure::TupleStruct(t)) => passthrough(&t.value, true, out),
+    Expression::Match(m) => {
+      passthrough(&m.source, true, out);
+      for a in m.arms.iter() { passthrough(&a.expression, true, out); }
+    }
+    Expression::FunctionCall(f) => for (_, x) in f.args.iter() { passthrough(x, true, out); },
+    Expression::Formula(f) => pass_factor(f, wrapped, out),
+    _ => {}
+  }
+}
+fn pass_factor(f: &Factor, wrapped: bool, out: &mut Vec<String>) {
+  match f {
+    Factor::Expression(e) => passthrough(e, wrapped, out),
+    Factor::Parenthetical(f) => pass_factor(f, wrapped, out),
+    Factor::Term(t) => if t.rhs.is_empty() { pass_factor(&t.lhs, wrapped, out) },
+    _ => {}
+  }
+}
+
 /// kind, targets, mutable flag, has-subscript, "from" (bare variable on the right-hand side of a define)
 fn describe(code: &MechCode) -> (String, Vec<String>, bool, bool, Option<String>) {
   match code {
@@ -94,6 +128,29 @@ fn describe(code: &MechCode) -> (String, Vec<String>, bool, bool, Option<String>
     MechCode::Comment(_) => ("Comment".into(), vec![], false, false, None),
     MechCode::Error(_, _) => ("Error".into(), vec![], false, false, None),
   }
+}
+
+
+/// Expressions that read PART of (or wrap) the variable `n` and evaluate, on the pinned tree, to storage owned by `n`
+/// (record fields, tuple elements, table columns, a bracketed or parenthesised variable, an indexed element).
+fn sub_sources(n: &str, v: &Value) -> Vec<String> {
+  let ident = |s: &str| !s.is_empty() && s.chars().all(|c| c.is_ascii_alphanumeric()) && s.chars().next().map(|c| c.is_ascii_alphabetic()).unwrap_or(false);
+  let p = project(v);
+  let p = if p.get("t").and_then(|t| t.as_str()) == Some("mref") { p.get("v").cloned().unwrap_or(J::Null) } else { p };
+  let mut out = vec![];
+  match p.get("t").and_then(|t| t.as_str()) {
+    Some("rec") => for f in p["f"].as_array().cloned().unwrap_or_default().iter().take(3) {
+      if let Some(name) = f["n"].as_str() { if ident(name) { out.push(format!("{}.{}", n, name)); } }
+    },
+    Some("tup") => for i in 1..=p["e"].as_array().map(|a| a.len()).unwrap_or(0).min(3) { out.push(format!("{}.{}", n, i)); },
+    Some("tbl") => for c in p["cols"].as_array().cloned().unwrap_or_default().iter().take(2) {
+      if let Some(name) = c["n"].as_str() { if ident(name) { out.push(format!("{}.{}", n, name)); } }
+    },
+    Some("mat") => { out.push(format!("[{}]", n)); out.push(format!("{}[1]", n)); out.push(format!("({})", n)); },
+    Some("num") | Some("bool") | Some("str") => { out.push(format!("[{}]", n)); out.push(format!("({})", n)); },
+    _ => {}
+  }
+  out
 }
 
 fn one_item_program(code: &MechCode) -> Program {
@@ -127,6 +184,14 @@ fn run_item(intrp: &mut Interpreter, code: &MechCode, origin: &str, events: &mut
   rec.insert("annotated".into(), json!(sub && kind == "Define"));
   rec.insert("from".into(), json!(from.unwrap_or_else(|| "-".to_string())));
   rec.insert("origin".into(), json!(origin));
+  let mut bases: Vec<String> = vec![];
+  match code {
+    MechCode::Statement(Statement::VariableDefine(d)) if d.var.kind.is_none() => passthrough(&d.expression, false, &mut bases),
+    MechCode::Statement(Statement::TupleDestructure(t)) => passthrough(&t.expression, false, &mut bases),
+    _ => {}
+  }
+  bases.sort(); bases.dedup();
+  rec.insert("bases".into(), json!(bases));
   let text: String = tokens_text(&code.tokens()).chars().filter(|c| c.is_ascii() && !c.is_ascii_control() && *c != '"' && *c != '\\').take(80).collect();
   rec.insert("text".into(), json!(text));
   let mut alive = true;
@@ -245,6 +310,47 @@ pub fn run(req: &J) -> J {
         let items = code_items(&pt_tree);
         if items.len() != 1 { continue; }
         alive = run_item(&mut intrp, &items[0], "probe", &mut events);
+      }
+    }
+    // sources that read part of a variable: assigning FROM them, and assigning to a variable defined from them, must leave
+    // the variable they read unchanged.  Each event carries "base" = the variable the source expression reads.
+    let mut subs: Vec<(String, String)> = vec![];
+    {
+      let syms = intrp.symbols();
+      let syms = syms.borrow();
+      let dict = syms.dictionary.borrow();
+      for n in names.iter() {
+        for (id, cell) in syms.symbols.iter() {
+          if dict.get(id).map(|x| x == n).unwrap_or(false) {
+            for src in sub_sources(n, &cell.borrow()) { subs.push((n.clone(), src)); }
+          }
+        }
+      }
+    }
+    subs.truncate(12);
+    let mut sub_texts: Vec<(String, String)> = vec![];
+    for (k, (base, src)) in subs.iter().enumerate() {
+      // (a) a mutable variable holding a DIFFERENT value of the same kind (a fresh temporary), then assigned from the source
+      sub_texts.push((base.clone(), format!("~zzs{} := {} + {}", k, src, src)));
+      sub_texts.push((base.clone(), format!("~zzs{} := !{}", k, src)));
+      sub_texts.push((base.clone(), format!("zzs{} = {}", k, src)));
+      sub_texts.push((base.clone(), format!("zzs{} += {}", k, src)));
+      sub_texts.push((base.clone(), format!("zzs{} = {}", k, src)));
+    }
+    for (k, (base, src)) in subs.iter().enumerate() {
+      // (b) a variable DEFINED from the source, then changed
+      sub_texts.push((base.clone(), format!("~zza{} := {}", k, src)));
+      sub_texts.push((base.clone(), format!("zza{} = zza{} + zza{}", k, k, k)));
+      sub_texts.push((base.clone(), format!("zza{} = !zza{}", k, k)));
+      sub_texts.push((base.clone(), format!("zza{}[1] = zza{}[1] + zza{}[1]", k, k, k)));
+    }
+    for (base, pt) in sub_texts.iter() {
+      if !alive { break; }
+      if let Ok(pt_tree) = crate::session::parse_cached(pt) {
+        let items = code_items(&pt_tree);
+        if items.len() != 1 { continue; }
+        alive = run_item(&mut intrp, &items[0], "probe", &mut events);
+        let _ = base;
       }
     }
   }
